@@ -119,7 +119,7 @@ class RunView:
             for e in evs:
                 if e["e"] == "req":
                     e["ret"] = e["id"] in rets
-            self.hist[name] = {"user": h["user"], "term": h["term"], "clean": h["clean"], "ev": evs}
+            self.hist[name] = {"user": h["user"], "term": h["term"], "clean": h["clean"], "ev": evs, "wdone": bool(h.get("wdone", False))}
         # round boundaries by global sequence number
         self.gstart = {}
         for name, h in rec["hist"].items():
@@ -180,8 +180,19 @@ class RunView:
         """What else happened to topic t in the round of the request (description only)."""
         rnd = self.round_of(g)
         if name is not None:
-            prev = [e for e in self.hist[name]["ev"] if e["e"] == "req" and e["t"] == t and e["seq"] < seq]
-            if prev and prev[-1]["kind"] == "unsub":
+            # the session's own {leave unsub} on t was accepted earlier and no later {sub} on t succeeded: Session.subs may still be stale
+            evs = self.hist[name]["ev"]
+            state = False
+            for i, e in enumerate(evs):
+                if e["seq"] >= seq:
+                    break
+                if e["e"] == "req" and e["t"] == t and e["kind"] in ("unsub", "sub"):
+                    a = self.answered(evs, i)
+                    if a is not None and a["code"] == 200 and a["id"] == e["id"]:
+                        state = e["kind"] == "unsub"
+                    elif e["kind"] == "unsub" and a is None:
+                        state = True
+            if state:
                 return "after_own_unsub"
         canon = "me:" + user if t == "me" else t
         for k, x, u in self.delreqs.get(rnd, []):
@@ -217,6 +228,8 @@ class RunView:
         rc = self.racing(h["user"], evs[last]["t"], evs[last]["g"])
         if a is None:
             return "unanswered:" + evs[last]["kind"], rc
+        if a["id"] != evs[last]["id"]:
+            return "evicted_only:" + evs[last]["kind"], rc      # the eviction notice says nothing about the request's own fate
         return "answered:%s:%d" % (evs[last]["kind"], a["code"]), rc
 
     def blocked_sig(self, name, prev, rc):
@@ -267,14 +280,16 @@ class RunView:
                     if t not in s["subs"] or me not in s["subs"] or me not in c["subs"]:
                         continue
                     h = self.hist[name]
-                    if any(e["e"] == "req" and g0 <= e["g"] < g1 and e["t"] in (t, "me") for e in h["ev"]):
+                    if any(e["e"] == "req" and g0 <= e["g"] < g1 and ((e["t"] == t and e["kind"] in ("leave", "unsub", "deltopic")) or
+                                                                      (e["t"] == "me" and e["kind"] == "leave") or e["kind"] == "deluser") for e in h["ev"]):
                         continue
                     if any(e["e"] == "stall" and g0 <= e["g"] < g1 for e in h["ev"]):
                         continue
                     marks = [e["seq"] for e in h["ev"] if e["e"] == "mark" and e["g"] >= g0 and e["g"] < g1]
                     gone[name].append({"t": t, "after": marks[0] if marks else 0, "kind": kind})
         for name, h in sorted(self.hist.items()):
-            out.append({"k": "sess", "run": self.run, "name": name, "live": h["term"] == "", "term": h["term"], "clean": h["clean"],
+            # live = still connected at the end: cleanUp not started and the write loop has not closed the socket
+            out.append({"k": "sess", "run": self.run, "name": name, "live": h["term"] == "" and not h["wdone"], "term": h["term"], "clean": h["clean"],
                         "ev": [e for e in h["ev"] if e["e"] in ("req", "ctrl", "pres", "term", "mark")], "gone": gone.get(name, [])})
         for sn in snaps:
             st = sn["st"]
@@ -285,7 +300,7 @@ class RunView:
                       for t, tp in sorted(st["topics"].items())]
             deleted = [{"t": t, "kind": self.delack.get(t, (0, self.delkind.get(t, "unknown")))[1]} for t, ex in sorted(st["rows"].items()) if not ex]
             out.append({"k": "snap", "run": self.run, "round": sn["round"], "quiesced": bool(sn["quiesced"]), "sess": sess, "topics": topics,
-                        "deleted": deleted, "registry": st["registry"], "qerr": sn.get("qerr", "")})
+                        "deleted": deleted, "registry": st["registry"], "qerr": sn.get("qerr", ""), "why": sn.get("why", "")})
         hung = []
         for hc in self.rec["hung"]:
             hung.append({"sess": hc.get("sess", ""), "req": hc.get("req", "") or "", "clean": hc.get("clean", 0), "op": hc.get("op", ""), "goid": hc.get("goid", 0)})
@@ -331,7 +346,7 @@ def describe(view, v, mon):
     elif v["k"] == "snap":
         sess = {s["name"]: s for s in v["sess"]}
         if mon == "Quiesces":
-            out.append(({"run": view.run, "round": v["round"], "qerr": v["qerr"]}, {"site": "world_not_quiescent", "input_class": "hang" if view.rec["hung"] else "none"}))
+            out.append(({"run": view.run, "round": v["round"], "qerr": v["qerr"]}, {"site": "world_not_quiescent", "input_class": "hang" if view.rec["hung"] else "none", "why": v.get("why", "")}))
         elif mon == "AttachSymmetry":
             for s in v["sess"]:
                 if not s["live"]:
@@ -369,7 +384,8 @@ def describe(view, v, mon):
                     out.append(({"run": view.run, "round": v["round"], "topic": d["t"]}, {"input_class": d["kind"] + "_delete", "site": "deleted_topic_loaded"}))
                 for s in v["sess"]:
                     if s["live"] and d["t"] in s["subs"]:
-                        out.append(({"run": view.run, "round": v["round"], "topic": d["t"], "sess": s["name"]}, {"input_class": d["kind"] + "_delete", "site": "deleted_topic_listed"}))
+                        ic = "wedged_session" if view.wedged(s["name"]) else d["kind"] + "_delete"
+                        out.append(({"run": view.run, "round": v["round"], "topic": d["t"], "sess": s["name"]}, {"input_class": ic, "site": "deleted_topic_listed"}))
         elif mon == "NoGhostSession":
             out.append(({"run": view.run, "round": v["round"]}, {"site": "unknown_session_attached"}))
     elif v["k"] == "run":
@@ -407,8 +423,8 @@ def run(ctx):
 
     # ---- E2: concurrent recording under -race
     rec_path = os.path.join(ctx.scratch, "c14_e2.ndjson")
-    env = {"VERIF_OUT": rec_path, "VERIF_C14_RUNS": 2500 if thorough else 110, "VERIF_C14_ROUNDS": 4, "VERIF_C14_OPS": 8,
-           "VERIF_C14_BUDGET_MS": 330000 if thorough else 38000, "GORACE": "halt_on_error=0 history_size=2"}
+    env = {"VERIF_OUT": rec_path, "VERIF_C14_RUNS": 2500 if thorough else 90, "VERIF_C14_ROUNDS": 4, "VERIF_C14_OPS": 8,
+           "VERIF_C14_BUDGET_MS": 330000 if thorough else 28000, "GORACE": "halt_on_error=0 history_size=2"}
     if os.environ.get("VERIF_C14_SELFTEST"):
         env["VERIF_C14_SELFTEST"] = os.environ["VERIF_C14_SELFTEST"]
     rc, out, wall = ctx.go_test("./", "TestVerifC14E2$", env=env, race=True, timeout=900)
